@@ -1,5 +1,6 @@
 import XsVerif.Driver.Util
 import XsVerif.Model.Modes
+import XsVerif.Model.AttrDefaults
 open Lean XsVerif.Driver XsVerif.Modes
 
 namespace XsVerif.Driver.C04
@@ -68,6 +69,91 @@ def parseMember (j : Json) : Except String (Member Nat) := do
     return .facet (← (a[1]?.getD Json.null).getNat?) rest
   | _ => throw "member"
 
+/-! value constraints / document-level state (Model/AttrDefaults.lean) -/
+section AttrDefaults
+open XsVerif.AttrDefaults
+
+def optStr (j : Json) (k : String) : Except String (Option String) :=
+  match j.getObjVal? k with
+  | .ok (.str s) => pure (some s)
+  | .ok .null => pure none
+  | .error _ => pure none
+  | _ => throw s!"{k}: string or null expected"
+
+def parseKind (s : String) : Except String Kind :=
+  match s with
+  | "plain" => pure .plain | "id" => pure .id | "idref" => pure .idref
+  | "idrefs" => pure .idrefs | "qname" => pure .qname | _ => throw s!"kind {s}"
+
+def parseUse (s : String) : Except String Use :=
+  match s with
+  | "optional" => pure .optional | "required" => pure .required | "prohibited" => pure .prohibited
+  | _ => throw s!"use {s}"
+
+def parseDecl (j : Json) : Except String Decl := do
+  return { name := ← getStr j "name", use := ← parseUse (← getStr j "use"),
+           fixed := ← optStr j "fixed", dflt := ← optStr j "dflt", kind := ← parseKind (← getStr j "kind") }
+
+def parsePair (j : Json) : Except String (String × String) := do
+  let a ← j.getArr?
+  return (← (a[0]?.getD Json.null).getStr?, ← (a[1]?.getD Json.null).getStr?)
+
+def parseElem (j : Json) : Except String Elem := do
+  let decls ← (← getArr j "decls").toList.mapM parseDecl
+  let attrs ← (← getArr j "attrs").toList.mapM parsePair
+  let text ← match j.getObjVal? "text" with
+    | .ok (.obj o) =>
+      let t := Json.obj o
+      let kind ← parseKind (← getStr t "kind")
+      -- ID-typed simple content is outside the model (the `id_list` of the parent element would be involved)
+      if kind = .id then throw "text of kind id is outside the model"
+      pure (some (({ fixed := ← optStr t "fixed", dflt := ← optStr t "dflt", kind := kind } : TextDecl),
+                  ← getStr t "text"))
+    | _ => pure none
+  return { decls := decls, attrs := attrs, text := text }
+
+/-- `XsdList.raw_decode`: `normalize(obj).split(' ')` without the empty chunks (values arrive normalised) -/
+def tokens (s : String) : List String := (s.splitOn " ").filter (· ≠ "")
+
+/-- `prefix, name = obj.split(':')` (simple_types.py:749-752); no prefix / more than one colon: no lookup -/
+def qprefix (s : String) : Option String :=
+  match s.splitOn ":" with
+  | [p, _] => some p
+  | _ => none
+
+def isXsiName (s : String) : Bool := s.startsWith xsiPrefix
+
+def evJson : Ev → Json
+  | .missing n => Json.arr #["missing", n]
+  | .notAllowed n => Json.arr #["notAllowed", n]
+  | .notXsi n => Json.arr #["notXsi", n]
+  | .prohibited n => Json.arr #["prohibited", n]
+  | .fixedMismatch n => Json.arr #["fixed", n]
+  | .unmapped p => Json.arr #["unmapped", p]
+  | .dupId v => Json.arr #["dupId", v]
+  | .multiId => Json.arr #["multiId", ""]
+  | .dangling v => Json.arr #["dangling", v]
+
+def strs (l : List String) : Json := Json.arr (l.map Json.str).toArray
+
+def handleAttrs (j : Json) : Except String Json := do
+  let v11 ← getBool j "v11"
+  let ud ← getBool j "ud"
+  let ns ← getStrList j "ns"
+  let xsi ← (← getArr j "xsi").toList.mapM parseDecl
+  let doc ← (← getArr j "doc").toList.mapM parseElem
+  let acts := docActsWith effective isXsiName ud xsi doc
+  return Json.mkObj [
+    ("events", Json.arr ((XsVerif.AttrDefaults.run tokens qprefix isXsiName ns v11 ud xsi doc).map evJson).toArray),
+    -- what a descent that skips the value constraints of omitted attributes would report (never the
+    -- code's behaviour; tells the harness whether the case discriminates)
+    ("ignoring", Json.arr ((runWith effectiveIgnoringConstraints tokens qprefix isXsiName ns v11 ud xsi doc).map evJson).toArray),
+    ("refs", strs (refsOf tokens acts)), ("ids", strs (idsOf acts)),
+    ("constraints_used", nat ((doc.map fun e =>
+        ((valueConstraints ud e.decls).filter (fun kv => !hasKey kv.1 e.attrs)).length).sum))]
+
+end AttrDefaults
+
 def handle (j : Json) : Except String Json := do
   let op ← getStr j "op"
   match op with
@@ -107,6 +193,7 @@ def handle (j : Json) : Except String Json := do
       | _ => throw "file"
     return Json.mkObj [("exit", nat (cliExit fs)), ("total", nat (totErrors fs)),
                        ("unsaturated", nat (osStatus (cliCodeUnsaturated fs)))]
+  | "attrs" => handleAttrs j
   | "union" =>
     let ms ← (← getArr j "members").toList.mapM parseMember
     let g ← getNat j "generic"
